@@ -205,6 +205,7 @@ def run_shard(ctx):
 def replay(record):
     from ..runner import Ctx
     ctx = Ctx("C13", "quick", 0, 0, 1, collect=True)
+    ctx.replaying = True
     run_history(ctx, {"spec": record["spec"], "ops": record["ops"], "kw": record.get("kw", {}), "seed": record.get("seed", 0)})
     if ctx.violations:
         b, (sz, rec) = next(iter(ctx.violations.items()))
